@@ -1,6 +1,6 @@
 (* C18 — property theorems only (each closed by `exact <lemma>`, followed by Print Assumptions). *)
 From Coq Require Import List NArith Bool.
-From MW Require Import C16.Model C16.Proofs C17.Proofs C18.Proofs.
+From MW Require Import C16.Model C16.Proofs C17.Proofs C18.Proofs C18.ProofsIds.
 Import ListNotations.
 Open Scope N_scope.
 
@@ -27,6 +27,18 @@ Theorem C18_restore_state : forall now sv,
   s_now s = now /\ s_cnt s = [].
 Proof. exact restore_state. Qed.
 Print Assumptions C18_restore_state.
+
+(* "job ids are not reused for new jobs": two adds without id, anywhere in any history with any number of
+   restarts in between (rrun: ops of the full alphabet incl. Drop / Watchdog, and Restart = restore (save s)),
+   starting from ANY state: the later one gets a strictly larger server-chosen id.  (The counter is pickled;
+   it is never recomputed from the jobs that happen to be stored - dropped jobs would make that too small.) *)
+Theorem C18_ids_not_reused : forall s ch prio tmo h ch' prio' tmo' n n',
+  snd (step s (Add ch prio None tmo)) = [OJid (JAuto n)] ->
+  let s' := rrun h (fst (step s (Add ch prio None tmo))) in
+  snd (step s' (Add ch' prio' None tmo')) = [OJid (JAuto n')] ->
+  n < n'.
+Proof. exact ids_not_reused. Qed.
+Print Assumptions C18_ids_not_reused.
 
 (* clients waiting on a restored finished job are released at once (in any state, hence also
    after a restart: finish events are re-created set for done jobs) *)
